@@ -23,7 +23,7 @@ const c29Rule = "history of <=30 (thorough <=80) operations AddRoute(source, rou
 // any comparable pointer works).
 type c29Src struct{ name string }
 
-const c29NRoutes = 5
+const c29NRoutes = 7
 
 var c29Pfx = [c29NRoutes]*bnet.Prefix{
 	bnet.NewPfx(bnet.IPv4FromOctets(10, 0, 0, 0), 8).Ptr(),
@@ -31,9 +31,21 @@ var c29Pfx = [c29NRoutes]*bnet.Prefix{
 	bnet.NewPfx(bnet.IPv4FromOctets(10, 0, 0, 0), 9).Ptr(),
 	bnet.NewPfx(bnet.IPv4FromOctets(10, 0, 0, 0), 9).Ptr(),
 	bnet.NewPfx(bnet.IPv4FromOctets(192, 0, 2, 0), 24).Ptr(),
+	// 5 and 6: route 2 once more, differing from it only in the communities / large communities (attributes
+	// the decision process does not look at: Path.Equal says "same", Path.Compare says "different")
+	bnet.NewPfx(bnet.IPv4FromOctets(10, 0, 0, 0), 9).Ptr(),
+	bnet.NewPfx(bnet.IPv4FromOctets(10, 0, 0, 0), 9).Ptr(),
 }
 
-func c29NextHop(i int) bnet.IP { return bnet.IPv4FromOctets(198, 51, 100, uint8(i+1)) }
+// c29Base: the pool route whose attributes route i starts from.
+func c29Base(i int) int {
+	if i >= 5 {
+		return 2
+	}
+	return i
+}
+
+func c29NextHop(i int) bnet.IP { return bnet.IPv4FromOctets(198, 51, 100, uint8(c29Base(i)+1)) }
 
 // c29Route builds route i of the pool as a fresh API message (as the RIS
 // client receives it: one path per update).
@@ -48,14 +60,20 @@ func c29Route(i int) *routeapi.Route {
 	default:
 		bp := &routeapi.BGPPath{
 			NextHop:       c29NextHop(i).ToProto(),
-			Source:        bnet.IPv4FromOctets(203, 0, 113, uint8(i)).ToProto(),
+			Source:        bnet.IPv4FromOctets(203, 0, 113, uint8(c29Base(i))).ToProto(),
 			LocalPref:     100,
-			BgpIdentifier: uint32(i),
+			BgpIdentifier: uint32(c29Base(i)),
 			Ebgp:          true,
 			AsPath: []*routeapi.ASPathSegment{{
 				AsSequence: true,
-				Asns:       []uint32{65000 + uint32(i), 65100},
+				Asns:       []uint32{65000 + uint32(c29Base(i)), 65100},
 			}},
+		}
+		if i == 5 {
+			bp.Communities = []uint32{65000<<16 | 7}
+		}
+		if i == 6 {
+			bp.LargeCommunities = []*routeapi.LargeCommunity{{GlobalAdministrator: 65000, DataPart1: 7, DataPart2: 7}}
 		}
 		if i == 4 {
 			bp.Communities = []uint32{65000<<16 | 1, 65000<<16 | 2}
@@ -67,7 +85,14 @@ func c29Route(i int) *routeapi.Route {
 }
 
 func c29Key(i int) string {
-	return fmt.Sprintf("%s via %s", c29Pfx[i].String(), c29NextHop(i).String())
+	k := fmt.Sprintf("%s via %s", c29Pfx[i].String(), c29NextHop(i).String())
+	switch i {
+	case 5:
+		k += " comm[4259840007]"
+	case 6:
+		k += " lcomm[(65000,7,7)]"
+	}
+	return k
 }
 
 // c29Present renders the underlying LocRIB as the sorted set of
@@ -83,7 +108,21 @@ func c29Present(rib *locRIB.LocRIB) []string {
 			case p.Type == route.BGPPathType && p.BGPPath != nil && p.BGPPath.BGPPathA != nil && p.BGPPath.BGPPathA.NextHop != nil:
 				nh = p.BGPPath.BGPPathA.NextHop.String()
 			}
-			set[fmt.Sprintf("%s via %s", r.Prefix().String(), nh)] = struct{}{}
+			k := fmt.Sprintf("%s via %s", r.Prefix().String(), nh)
+			if r.Prefix().Equal(c29Pfx[2]) && p.BGPPath != nil {
+				// the three routes of this prefix that tie in the decision process are told apart by these
+				if c := p.BGPPath.Communities; c != nil && len(*c) > 0 {
+					k += fmt.Sprintf(" comm%v", []uint32(*c))
+				}
+				if lc := p.BGPPath.LargeCommunities; lc != nil && len(*lc) > 0 {
+					k += " lcomm["
+					for _, x := range *lc {
+						k += x.String()
+					}
+					k += "]"
+				}
+			}
+			set[k] = struct{}{}
 		}
 	}
 	out := make([]string, 0, len(set))
